@@ -144,8 +144,11 @@ let handle (f : string array) : string =
     let seed = int_of_string f.(2) and n = int_of_string f.(3) in
     let (m, _) = stream_take (lcg_init seed) n in
     let spec = hexn (sm3 m) in
+    let fast = hexn (sm3_fast m) in
     (match sm3Sum m with
-     | Ok b -> let d = hexn b in if d = spec then "ok " ^ d ^ " " ^ d else "MODEL-SPEC-DIFF " ^ spec ^ " " ^ d
+     | Ok b -> let d = hexn b in
+       if fast <> spec then "FAST-SPEC-DIFF " ^ spec ^ " " ^ fast
+       else if d = spec then "ok " ^ d ^ " " ^ d else "MODEL-SPEC-DIFF " ^ spec ^ " " ^ d
      | Err _ -> "err" | Panic -> "PANIC" | Hang -> "HANG")
   | "G" ->
     let seed = int_of_string f.(2) and lo = int_of_string f.(3) and hi = int_of_string f.(4) in
@@ -179,6 +182,7 @@ let handle (f : string array) : string =
   | "M" ->
     let key = bytes_of_hex f.(2) and msg = bytes_of_hex f.(3) in
     let spec = hexn (hmac_sm3 key msg) in
+    if hexn (hmac_sm3_fast key msg) <> spec then "FAST-SPEC-DIFF " ^ spec else
     (match hmac_oneshot key msg with
      | Ok b -> if hexn b = spec then "ok " ^ spec else "MODEL-SPEC-DIFF " ^ spec ^ " " ^ hexn b
      | Err _ -> "err" | Panic -> "PANIC" | Hang -> "HANG")
